@@ -83,10 +83,15 @@ def big_remove(case, rec):
             for key, msg in dbdump.audit(fdb.path):
                 rec.violation('remove:big-lexicon:' + key, msg)
             after = dbdump.dump(fdb.path)
+            # the removal only takes rows away (what must go is decided by the ownership audit above: no row may be
+            # left that belongs to no installed lexicon); the kept lexicon's rows are untouched
             for t in dbdump.OWNED:
-                if len(after[t]) >= len(before[t]) and before[t]:
-                    rec.violation('remove:big-lexicon', f'table {t} did not shrink: {len(before[t])} -> {len(after[t])} rows')
+                extra = [row for row in after[t] if row not in before[t]]
+                if extra:
+                    rec.violation('remove:big-lexicon', f'table {t} has rows after the removal that were not there before: {extra[:2]}')
                     break
+            if sum(len(after[t]) for t in dbdump.OWNED) >= sum(len(before[t]) for t in dbdump.OWNED):
+                rec.violation('remove:big-lexicon', 'the owned tables hold as many rows after the removal of the large lexicon as before')
     finally:
         env.rmtree(work)
     rec.done(['big-remove', case['seed']], nontrivial=True, sample={'operation': 'remove of a large lexicon', 'entries': len(lex['entries']),
